@@ -34,7 +34,8 @@ if [ -n "$CHECKS" ]; then
     RES="$RES $c:rc=$rc"
     grep -E '^(VIOLATION|KNOWN-FINDING|MODEL-DRIFT|  sig)' /tmp/seed-$SID-$c.log | head -5
   done
-  rm -rf /tmp/seed-$SID-evidence /tmp/seed-$SID-replays /verif/build/driver-*seedwt_$SID* /verif/harness/go.*seedwt_$SID*
+  TAG=$(echo $WT | sed 's/[^A-Za-z0-9]\+/_/g; s/^_//')
+  rm -rf /tmp/seed-$SID-evidence /tmp/seed-$SID-replays /verif/build/driver-$TAG /verif/harness/go.$TAG.mod /verif/harness/go.$TAG.sum
 fi
 git -C /repo worktree remove --force $WT
 echo "checks:$RES"
